@@ -294,17 +294,24 @@ def run_batch(prop, tier, seed):
             if fid is not None and fid in known_ids:
                 known_hits[fid] = known_hits.get(fid, 0) + 1
                 continue
-            if not out or not out.get("violation"):
-                # seen in a worker, absent when the same case is executed again: the harness, not the library, is at fault
-                # (a run that depends on more than its case); never report it as a violation, never pass silently either
-                unreplayable += 1
-                print(f"HARNESS-NONDETERMINISM: violation of class {vclass} (run {idx}) did not reproduce when its case was executed again: {v.get('detail', '')[:300]}")
-                continue
-            path = write_replay(prop, seed, idx, small, out["violation"], out["digest"])
-            ok = _validate_replay(prop, path, out["violation"]["class"])
+            path = ok = None
+            if out and out.get("violation"):
+                path = write_replay(prop, seed, idx, small, out["violation"], out["digest"])
+                ok = _validate_replay(prop, path, out["violation"]["class"])
             if not ok:
+                # The violation was seen in a worker, but the (minimised) case does not show it when executed again here or in a
+                # fresh interpreter.  Before blaming the harness, judge the case exactly as generated in a fresh interpreter: a
+                # failure that leaves something behind in process-wide state of the library can make every later execution in
+                # this process fail, so that shrinking removes the steps that are really needed.
+                path0 = write_replay(prop, seed, idx, case, v, None)
+                if _validate_replay(prop, path0, v["class"]):
+                    print(f"note: run {idx}: minimisation discarded (its result fails only in a process that has executed other cases "
+                          f"before, i.e. the failure accumulates in process-wide state); reporting the case as generated")
+                    small, out, path, ok = case, {"violation": v, "digest": None}, path0, True
+            if not ok:
+                # never report it as a violation, never pass silently either (exit 3 below)
                 unreplayable += 1
-                print(f"HARNESS-NONDETERMINISM: violation of class {vclass} (run {idx}) did not replay in a fresh process; see {path}")
+                print(f"HARNESS-NONDETERMINISM: violation of class {vclass} (run {idx}) does not replay in a fresh process: {v.get('detail', '')[:300]}")
                 continue
             print(f"violation class={out['violation']['class']} run={idx} shrink_tried={slog.get('shrink_tried')}\n  detail: {out['violation']['detail']}")
             print(f"VIOLATION property={prop.id} replay={path}", flush=True)
